@@ -289,9 +289,21 @@ def run(c):
         if violated:
             break
     c.extra["rejected_under_load_not_reproduced"] = unreproduced
+    kernel_half(c)
     c.rule = ("histories = every sequence of 5 operations (connect attributed as root->WireServer / user->IMDS or direct, on "
               "either of two source ports incl. reuse; request; close) over two connection slots printed by TLC; plus a "
               "concurrent stress run with keep-alive and immediate port reuse")
+
+
+def kernel_half(c):
+    """'... are those recorded by the kernel for that very connection': the kernel program's side of single use -- a later
+    connection from a source port that still carries an unconsumed record of an earlier connection gets its OWN record
+    (linux-ebpf/ebpf_cgroup.c driven in user space, judged by spec/trace/EbpfTrace.tla; shared with C06)."""
+    from checks import c06
+    for f in c06.kernel_side_port_reuse(c):
+        if f["sig"].get("kind") in ("stale-record-on-reused-port",):
+            c.violation("the kernel program leaves an earlier connection's record under a reused source port: " + f["whats"][0],
+                        {"kind": "kernel-record-not-the-connections-own"}, {"witness": f.get("witness"), "sites": f["sites"]})
 
 
 def replay(c, path):
